@@ -324,3 +324,96 @@ Section Ranges.
       + rewrite resolve_rng_loc. rewrite items_as_loc in Hr. rewrite Hr. reflexivity.
   Qed.
 End Ranges.
+
+(* ------------------------------------------------------------------ normal form: a second conversion *)
+
+(* the raw entry a reader yields for a decoded written entry (C16 decoders dec5 / dec4) *)
+Definition raw_of_ent (x : W.ent) : lloc :=
+  match x with
+  | W.EBase a => (LBase a, [])
+  | W.EOffsetPair b e d => (LOffsetPair b e, d)
+  | W.EStartEnd b e d => (LStartEnd b e, d)
+  | W.EStartLength b len d => (LStartLength b len, d)
+  | W.EDefault d => (LDefault, d)
+  | W.EPair b e d => (LPair b e, d)
+  end.
+
+Definition loc_data (y : W.wloc) : list byte :=
+  match y with
+  | W.LBase _ => []
+  | W.LOffsetPair _ _ d | W.LStartEnd _ _ d | W.LStartLength _ _ d | W.LDefault d => d
+  end.
+
+Section NormalForm.
+  Variable cvt : N -> option W.addr.
+  Variable uaddr : N -> res N.
+  Variable xconv2 : list byte -> res (list byte).
+  Hypothesis Hcvt : forall a, cvt a = Some (W.AConst a).
+
+  Lemma cva_id a : cva cvt a = Ok (W.AConst a).
+  Proof. unfold cva. rewrite Hcvt. reflexivity. Qed.
+
+  (* DWARF 5 entries: the image of the conversion (constant addresses, no empty range) is reproduced *)
+  Lemma locs_normal_form_v5 : forall l ents hb,
+    W.ents_of l = Some ents -> forallb (keep_loc) l = true ->
+    Forall (fun y => xconv2 (loc_data y) = Ok (loc_data y)) l ->
+    conv_locs cvt uaddr xconv2 hb (map (fun x => EvItem (raw_of_ent x)) ents) = Ok l.
+  Proof.
+    induction l as [|y l IH]; intros ents hb He Hk Hx.
+    - cbn in He. inversion He. reflexivity.
+    - cbn [W.ents_of] in He. destruct (W.ent_of y) as [ey|] eqn:Ey; [|discriminate].
+      destruct (W.ents_of l) as [es|] eqn:Es; [|discriminate]. inversion He; subst ents; clear He.
+      cbn [forallb] in Hk. apply andb_true_iff in Hk. destruct Hk as [Hk1 Hk2].
+      inversion Hx as [|? ? Hx1 Hx2]; subst.
+      cbn [map conv_locs].
+      destruct y as [a|b e d|b e d|b len d|d]; cbn [W.ent_of] in Ey.
+      + destruct a as [a|]; [|discriminate]. inversion Ey; subst ey. cbn [raw_of_ent conv_loc1].
+        rewrite cva_id. cbn [bind]. rewrite (IH es true eq_refl Hk2 Hx2). reflexivity.
+      + inversion Ey; subst ey. cbn [raw_of_ent conv_loc1 loc_data] in *. rewrite Hx1. cbn [bind].
+        rewrite (IH es hb eq_refl Hk2 Hx2). cbn [bind]. rewrite Hk1. reflexivity.
+      + destruct b as [b|]; [|discriminate]. destruct e as [e|]; [|discriminate]. inversion Ey; subst ey.
+        cbn [raw_of_ent conv_loc1 loc_data] in *. rewrite !cva_id, Hx1. cbn [bind].
+        rewrite (IH es hb eq_refl Hk2 Hx2). cbn [bind]. rewrite Hk1. reflexivity.
+      + destruct b as [b|]; [|discriminate]. inversion Ey; subst ey.
+        cbn [raw_of_ent conv_loc1 loc_data] in *. rewrite !cva_id, Hx1. cbn [bind].
+        rewrite (IH es hb eq_refl Hk2 Hx2). cbn [bind]. rewrite Hk1. reflexivity.
+      + inversion Ey; subst ey. cbn [raw_of_ent conv_loc1 loc_data] in *. rewrite Hx1. cbn [bind].
+        rewrite (IH es hb eq_refl Hk2 Hx2). reflexivity.
+  Qed.
+
+  (* DWARF <= 4 pairs: a list that uses offset pairs exactly while a base address is in force and start/end
+     pairs otherwise (what the conversion of a pair-format list produces, and what the pair writer accepts: C16
+     `rejected`) is reproduced from the pairs it is written as *)
+  Fixpoint pair_form (hb : bool) (l : list W.wloc) : bool :=
+    match l with
+    | [] => true
+    | W.LBase _ :: r => pair_form true r
+    | W.LOffsetPair _ _ _ :: r => hb && pair_form hb r
+    | W.LStartEnd _ _ _ :: r => negb hb && pair_form hb r
+    | _ => false
+    end.
+
+  Lemma locs_normal_form_v4 : forall l ps hb,
+    W.pairs_of l = Some ps -> pair_form hb l = true -> forallb (keep_loc) l = true ->
+    Forall (fun y => xconv2 (loc_data y) = Ok (loc_data y)) l ->
+    conv_locs cvt uaddr xconv2 hb (map (fun x => EvItem (raw_of_ent x)) ps) = Ok l.
+  Proof.
+    induction l as [|y l IH]; intros ps hb He Hp Hk Hx.
+    - cbn in He. inversion He. reflexivity.
+    - cbn [W.pairs_of] in He. destruct (W.pair_of y) as [ey|] eqn:Ey; [|discriminate].
+      destruct (W.pairs_of l) as [es|] eqn:Es; [|discriminate]. inversion He; subst ps; clear He.
+      cbn [forallb] in Hk. apply andb_true_iff in Hk. destruct Hk as [Hk1 Hk2].
+      inversion Hx as [|? ? Hx1 Hx2]; subst.
+      cbn [map conv_locs].
+      destruct y as [a|b e d|b e d|b len d|d]; cbn [W.pair_of pair_form] in Ey, Hp; try discriminate.
+      + destruct a as [a|]; [|discriminate]. inversion Ey; subst ey. cbn [raw_of_ent conv_loc1].
+        rewrite cva_id. cbn [bind]. rewrite (IH es true eq_refl Hp Hk2 Hx2). reflexivity.
+      + apply andb_true_iff in Hp. destruct Hp as [-> Hp]. inversion Ey; subst ey.
+        cbn [raw_of_ent conv_loc1 loc_data both_const] in *. rewrite !cva_id, Hx1. cbn [bind both_const].
+        rewrite (IH es true eq_refl Hp Hk2 Hx2). cbn [bind]. rewrite Hk1. reflexivity.
+      + apply andb_true_iff in Hp. destruct Hp as [Hb Hp]. destruct hb; [discriminate|].
+        destruct b as [b|]; [|discriminate]. destruct e as [e|]; [|discriminate]. inversion Ey; subst ey.
+        cbn [raw_of_ent conv_loc1 loc_data] in *. rewrite !cva_id, Hx1. cbn [bind].
+        rewrite (IH es false eq_refl Hp Hk2 Hx2). cbn [bind]. rewrite Hk1. reflexivity.
+  Qed.
+End NormalForm.
